@@ -39,11 +39,11 @@ impl TryFrom<crate::Duration> for TimeDelta {
     type Error = TimeError;
 
     fn try_from(value: crate::Duration) -> Result<Self, Self::Error> {
-        let nanos = value
-            .nanos
-            .try_into()
+        // every `u64` nanosecond count is within `TimeDelta`'s range, so do not narrow to `i64` first
+        let seconds = i64::try_from(value.nanos / NANOS_PER_SEC)
             .map_err(|_| TimeError::InvalidDuration)?;
-        Ok(TimeDelta::nanoseconds(nanos))
+        let subsec = (value.nanos % NANOS_PER_SEC) as u32;
+        TimeDelta::new(seconds, subsec).ok_or(TimeError::InvalidDuration)
     }
 }
 
